@@ -16,6 +16,8 @@
 //!          | (if cond label) | (goto label) | (jsr label) | (ts dflt low high (label*)) | (ls dflt ((key label)*))
 //!          | (fld 178..181 #cls #name #desc) | (inv 182..184 #cls #name #desc t|f) | (invi #cls #name #desc)
 //!          | (cls 187|189|192|193 #cls) | (newarray 4..11) | (mana #cls dims)
+//!          | (ldc-mt #desc) | (ldc-mh handle) | (indy #name #desc handle (const*)) | (ldc-dyn #name #desc handle (const*))
+//!   handle := (h kind #cls #name #desc t|f)        const := (ldc-int v) | … | (ldc-mt #d) | (ldc-mh handle)
 //!   excs  := ( (start end handler (catch)?)* )
 //!   lines := () | ( ((label line)*) )
 //!   lvs   := () | ( ((start end #name (#desc)? (#sig)? index)*) )
@@ -28,7 +30,7 @@ use std::io::Cursor;
 use std::panic::{catch_unwind, AssertUnwindSafe};
 use duke::tree::class::{ClassAccess, ClassFile, ClassName, ObjClassName};
 use duke::tree::field::{FieldDescriptor, FieldName, FieldRef, FieldSignature};
-use duke::tree::method::code::{ArrayType, Code, Exception, Instruction, InstructionListEntry, Label, LabelRange, Loadable, LocalVariableName, Lv, LvIndex};
+use duke::tree::method::code::{ArrayType, Code, ConstantDynamic, Exception, Handle, Instruction, InstructionListEntry, Label, LabelRange, Loadable, LocalVariableName, Lv, LvIndex};
 use duke::tree::method::{Method, MethodAccess, MethodDescriptor, MethodName, MethodRef};
 use duke::tree::version::Version;
 use fvh::rng::Rng;
@@ -40,8 +42,12 @@ type R<T> = Result<T, String>;
 
 // ------------------------------------------------------------------------------------------------ requests
 
+/// kind 1..=9, pool reference kind (9/10/11), class, name, descriptor
 #[derive(Clone, Debug, PartialEq)]
-enum Const { Int(i32), Long(i64), Float(u32), Double(u64), Str(Vec<u32>), Cls(Vec<u32>) }
+struct RHandle { kind: u8, ref_kind: u8, cls: Vec<u32>, name: Vec<u32>, desc: Vec<u32> }
+
+#[derive(Clone, Debug, PartialEq)]
+enum Const { Int(i32), Long(i64), Float(u32), Double(u64), Str(Vec<u32>), Cls(Vec<u32>), MType(Vec<u32>), MHandle(RHandle) }
 
 #[derive(Clone, Debug, PartialEq)]
 enum RI {
@@ -64,6 +70,9 @@ enum RI {
 	ClsOp(u8, Vec<u32>),
 	NewArray(u8),
 	MultiANewArray(Vec<u32>, u8),
+	/// name, descriptor, bootstrap handle, static arguments
+	Indy(Vec<u32>, Vec<u32>, RHandle, Vec<Const>),
+	LdcDyn(Vec<u32>, Vec<u32>, RHandle, Vec<Const>),
 }
 
 struct RExc { start: usize, end: usize, handler: usize, catch: Option<Vec<u32>> }
@@ -82,6 +91,33 @@ fn is_simple(op: usize) -> bool {
 }
 
 fn num<T: TryFrom<i64>>(s: &Sexp) -> R<T> { T::try_from(s.as_int()?).map_err(|_| format!("out of range {s}")) }
+
+fn parse_handle(s: &Sexp) -> R<RHandle> {
+	match s.as_list()? {
+		[Sexp::Atom(h), k, c, n, d, i] if h == "h" => {
+			let kind: u8 = num(k)?; let i = i.as_bool()?;
+			let ref_kind = match (kind, i) { (1..=4, false) => 9, (5 | 8, false) => 10, (6 | 7, false) => 10, (6 | 7, true) => 11, (9, true) => 11, _ => return Err("handle kind".into()) };
+			Ok(RHandle { kind, ref_kind, cls: c.as_cps()?, name: n.as_cps()?, desc: d.as_cps()? })
+		}
+		_ => Err("handle".into()),
+	}
+}
+
+fn parse_const(s: &Sexp) -> R<Const> {
+	let l = s.as_list()?;
+	let head = l.first().ok_or("empty const")?.as_atom()?;
+	Ok(match (head, &l[1..]) {
+		("ldc-int", [v]) => Const::Int(num(v)?),
+		("ldc-long", [v]) => Const::Long(v.as_int()?),
+		("ldc-float", [v]) => Const::Float(num(v)?),
+		("ldc-double", [v]) => Const::Double(v.as_atom()?.parse::<u64>().map_err(|e| e.to_string())?),
+		("ldc-str", [v]) => Const::Str(v.as_cps()?),
+		("ldc-cls", [v]) => Const::Cls(v.as_cps()?),
+		("ldc-mt", [v]) => Const::MType(v.as_cps()?),
+		("ldc-mh", [h]) => Const::MHandle(parse_handle(h)?),
+		_ => return Err(format!("unknown constant {s}")),
+	})
+}
 
 fn parse_insn1(s: &Sexp) -> R<RI> {
 	let l = s.as_list()?;
@@ -118,6 +154,9 @@ fn parse_insn1(s: &Sexp) -> R<RI> {
 		("cls", [op, c]) => { let op: u8 = num(op)?; if ![187, 189, 192, 193].contains(&op) { return Err("cls op".into()) } RI::ClsOp(op, c.as_cps()?) }
 		("newarray", [t]) => { let t: u8 = num(t)?; if !(4..=11).contains(&t) { return Err("atype".into()) } RI::NewArray(t) }
 		("mana", [c, d]) => RI::MultiANewArray(c.as_cps()?, num(d)?),
+		("ldc-mt", [_]) | ("ldc-mh", [_]) => RI::Ldc(parse_const(s)?),
+		("indy", [n, d, h, a]) => RI::Indy(n.as_cps()?, d.as_cps()?, parse_handle(h)?, a.as_list()?.iter().map(parse_const).collect::<R<_>>()?),
+		("ldc-dyn", [n, d, h, a]) => RI::LdcDyn(n.as_cps()?, d.as_cps()?, parse_handle(h)?, a.as_list()?.iter().map(parse_const).collect::<R<_>>()?),
 		_ => return Err(format!("unknown insn {s}")),
 	})
 }
@@ -283,6 +322,29 @@ fn simple_insn(op: u8) -> Instruction {
 /// the `if` opcodes in the order of the request's condition numbers (JVMS §6.5)
 const IF_OPCODES: [u8; 16] = [0x99, 0x9a, 0x9b, 0x9c, 0x9d, 0x9e, 0x9f, 0xa0, 0xa1, 0xa2, 0xa3, 0xa4, 0xa5, 0xa6, 0xc6, 0xc7];
 
+fn handle(h: &RHandle) -> R<Handle> {
+	let f = || -> R<FieldRef> { Ok(FieldRef { class: unsafe { ObjClassName::from_inner_unchecked(js(&h.cls)?) }, name: unsafe { FieldName::from_inner_unchecked(js(&h.name)?) }, desc: unsafe { FieldDescriptor::from_inner_unchecked(js(&h.desc)?) } }) };
+	let m = || mref(&h.cls, &h.name, &h.desc);
+	Ok(match h.kind {
+		1 => Handle::GetField(f()?), 2 => Handle::GetStatic(f()?), 3 => Handle::PutField(f()?), 4 => Handle::PutStatic(f()?),
+		5 => Handle::InvokeVirtual(m()?), 6 => Handle::InvokeStatic(m()?, h.ref_kind == 11), 7 => Handle::InvokeSpecial(m()?, h.ref_kind == 11),
+		8 => Handle::NewInvokeSpecial(m()?), _ => Handle::InvokeInterface(m()?),
+	})
+}
+
+fn loadable(c: &Const) -> R<Loadable> {
+	Ok(match c {
+		Const::Int(v) => Loadable::Integer(*v),
+		Const::Long(v) => Loadable::Long(*v),
+		Const::Float(b) => Loadable::Float(f32::from_bits(*b)),
+		Const::Double(b) => Loadable::Double(f64::from_bits(*b)),
+		Const::Str(s) => Loadable::String(js(s)?),
+		Const::Cls(s) => Loadable::Class(unsafe { ClassName::from_inner_unchecked(js(s)?) }),
+		Const::MType(d) => Loadable::MethodType(unsafe { MethodDescriptor::from_inner_unchecked(js(d)?) }),
+		Const::MHandle(h) => Loadable::MethodHandle(handle(h)?),
+	})
+}
+
 fn mref(c: &[u32], n: &[u32], d: &[u32]) -> R<MethodRef> {
 	Ok(MethodRef { class: unsafe { ClassName::from_inner_unchecked(js(c)?) }, name: unsafe { MethodName::from_inner_unchecked(js(n)?) }, desc: unsafe { MethodDescriptor::from_inner_unchecked(js(d)?) } })
 }
@@ -314,14 +376,7 @@ fn build_tree(r: &Req) -> R<ClassFile> {
 			RI::Simple(op) => simple_insn(*op),
 			RI::Bi(v) => BiPush(*v),
 			RI::Si(v) => SiPush(*v),
-			RI::Ldc(c) => Ldc(match c {
-				Const::Int(v) => Loadable::Integer(*v),
-				Const::Long(v) => Loadable::Long(*v),
-				Const::Float(b) => Loadable::Float(f32::from_bits(*b)),
-				Const::Double(b) => Loadable::Double(f64::from_bits(*b)),
-				Const::Str(s) => Loadable::String(js(s)?),
-				Const::Cls(s) => Loadable::Class(unsafe { ClassName::from_inner_unchecked(js(s)?) }),
-			}),
+			RI::Ldc(c) => Ldc(loadable(c)?),
 			RI::Load(k, i) => match k { 0 => ILoad(lv(*i)), 1 => LLoad(lv(*i)), 2 => FLoad(lv(*i)), 3 => DLoad(lv(*i)), _ => ALoad(lv(*i)) },
 			RI::Store(k, i) => match k { 0 => IStore(lv(*i)), 1 => LStore(lv(*i)), 2 => FStore(lv(*i)), 3 => DStore(lv(*i)), _ => AStore(lv(*i)) },
 			RI::Iinc(i, v) => IInc(lv(*i), *v),
@@ -354,6 +409,12 @@ fn build_tree(r: &Req) -> R<ClassFile> {
 			}
 			RI::NewArray(t) => NewArray(match t { 4 => ArrayType::Boolean, 5 => ArrayType::Char, 6 => ArrayType::Float, 7 => ArrayType::Double, 8 => ArrayType::Byte, 9 => ArrayType::Short, 10 => ArrayType::Int, _ => ArrayType::Long }),
 			RI::MultiANewArray(c, d) => MultiANewArray(unsafe { ClassName::from_inner_unchecked(js(c)?) }, *d),
+			RI::Indy(n, d, h, a) => Instruction::InvokeDynamic(duke::tree::method::code::InvokeDynamic {
+				name: unsafe { MethodName::from_inner_unchecked(js(n)?) }, descriptor: unsafe { MethodDescriptor::from_inner_unchecked(js(d)?) },
+				handle: handle(h)?, arguments: a.iter().map(loadable).collect::<R<_>>()? }),
+			RI::LdcDyn(n, d, h, a) => Ldc(Loadable::Dynamic(ConstantDynamic {
+				name: unsafe { FieldName::from_inner_unchecked(js(n)?) }, descriptor: unsafe { FieldDescriptor::from_inner_unchecked(js(d)?) },
+				handle: handle(h)?, arguments: a.iter().map(loadable).collect::<R<_>>()? })),
 		};
 		instructions.push(InstructionListEntry { label: if wanted.contains(&k) { Some(lab(k)?) } else { None }, frame: None, instruction });
 	}
@@ -546,7 +607,7 @@ enum D {
 	Load(u8, u16), Store(u8, u16), Iinc(u16, i16), Ret(u16),
 	If(u8, i64), Goto(i64, bool /* wide */), Jsr(i64, bool),
 	Ts(i64, i32, i32, Vec<i64>), Ls(i64, Vec<(i32, i64)>),
-	Cp(u8, u16), InvokeInterface(u16, u8), NewArray(u8), MultiANewArray(u16, u8),
+	Cp(u8, u16), InvokeInterface(u16, u8), NewArray(u8), MultiANewArray(u16, u8), InvokeDynamic(u16),
 }
 
 fn decode_one(code: &[u8], pc: usize) -> R<(D, usize)> {
@@ -605,6 +666,7 @@ fn decode_one(code: &[u8], pc: usize) -> R<(D, usize)> {
 		}
 		0xb2..=0xb8 | 0xbb | 0xbd | 0xc0 | 0xc1 => (D::Cp(op, u16at(1)?), 3),
 		0xb9 => { if at(4)? != 0 { return Err("invokeinterface: fourth operand byte is not zero".into()) } (D::InvokeInterface(u16at(1)?, at(3)?), 5) }
+		0xba => { if at(3)? != 0 || at(4)? != 0 { return Err("invokedynamic: operand bytes 3 and 4 are not zero".into()) } (D::InvokeDynamic(u16at(1)?), 5) }
 		0xbc => (D::NewArray(at(1)?), 2),
 		0xc5 => (D::MultiANewArray(u16at(1)?, at(3)?), 4),
 		_ => return Err(format!("opcode {op:#x} is outside the modelled instruction set")),
@@ -646,7 +708,9 @@ fn blob(b: &[u8]) -> Sexp {
 
 fn rows(v: &[Vec<u16>]) -> Sexp { Sexp::list(v.iter().map(|r| Sexp::list(r.iter().map(|&x| Sexp::nat(x as usize)).collect())).collect()) }
 
-struct Written { bytes: Vec<u8>, class: PClass, code: PCode, lnt: Option<Vec<Vec<u16>>>, lvt: Option<Vec<Vec<u16>>>, lvtt: Option<Vec<Vec<u16>>> }
+struct Written { bytes: Vec<u8>, class: PClass, code: PCode, lnt: Option<Vec<Vec<u16>>>, lvt: Option<Vec<Vec<u16>>>, lvtt: Option<Vec<Vec<u16>>>,
+	/// rows of the BootstrapMethods attribute: handle index, argument indices
+	bsms: Vec<(u16, Vec<u16>)> }
 
 fn dissect(bytes: Vec<u8>) -> R<Written> {
 	let class = parse_class(&bytes)?;
@@ -661,7 +725,22 @@ fn dissect(bytes: Vec<u8>) -> R<Written> {
 	let lnt = one("LineNumberTable", 2)?;
 	let lvt = one("LocalVariableTable", 5)?;
 	let lvtt = one("LocalVariableTypeTable", 5)?;
-	Ok(Written { bytes, class, code, lnt, lvt, lvtt })
+	let mut bsms = Vec::new();
+	let ba = class.attr(&class.attrs, "BootstrapMethods");
+	if ba.len() > 1 { return Err("several BootstrapMethods".into()) }
+	if let Some(a) = ba.first() {
+		let mut r = Rd { b: &a.body, p: 0 };
+		let n = r.u16()?;
+		for _ in 0..n {
+			let h = r.u16()?;
+			let na = r.u16()?;
+			let mut args = Vec::new();
+			for _ in 0..na { args.push(r.u16()?); }
+			bsms.push((h, args));
+		}
+		if !r.done() { return Err("attribute_length of BootstrapMethods".into()) }
+	}
+	Ok(Written { bytes, class, code, lnt, lvt, lvtt, bsms })
 }
 
 fn code_write(r: &Req) -> Ans {
@@ -708,22 +787,18 @@ fn check_denotes(r: &Req, w: &Written) -> Result<(), &'static str> {
 			(RI::Si(a), D::Si(b)) if a == b => {}
 			(RI::Ldc(c), D::Ldc(idx, narrow)) => {
 				if *narrow != (*idx <= 255) { return Err("ldc-form") }
-				let ok = match (c, cls.pool.get(*idx as usize)) {
-					(Const::Int(v), Some(PItem::Int(x))) => v == x,
-					(Const::Float(v), Some(PItem::Float(x))) => v == x,
-					(Const::Str(s), Some(PItem::Str(u))) => cls.utf8(*u) == Some(&ascii(s)[..]),
-					(Const::Cls(s), Some(PItem::Class(u))) => cls.utf8(*u) == Some(&ascii(s)[..]),
-					_ => false,
-				};
-				if !ok { return Err("ldc-constant") }
+				if matches!(c, Const::Long(_) | Const::Double(_)) || !const_at(cls, c, *idx) { return Err("ldc-constant") }
 			}
 			(RI::Ldc(c), D::Ldc2(idx)) => {
-				let ok = match (c, cls.pool.get(*idx as usize)) {
-					(Const::Long(v), Some(PItem::Long(x))) => v == x,
-					(Const::Double(v), Some(PItem::Double(x))) => v == x,
-					_ => false,
-				};
-				if !ok { return Err("ldc2-constant") }
+				if !matches!(c, Const::Long(_) | Const::Double(_)) || !const_at(cls, c, *idx) { return Err("ldc2-constant") }
+			}
+			(RI::Indy(n, d, h, a), D::InvokeDynamic(idx)) => { if !dyn_at(w, 18, n, d, h, a, *idx) { return Err("invokedynamic-constant") } }
+			(RI::LdcDyn(n, d, h, a), D::Ldc(idx, narrow)) => {
+				if *narrow != (*idx <= 255) { return Err("ldc-form") }
+				if matches!(d.first(), Some(68 | 74)) || !dyn_at(w, 17, n, d, h, a, *idx) { return Err("dynamic-constant") }
+			}
+			(RI::LdcDyn(n, d, h, a), D::Ldc2(idx)) => {
+				if !matches!(d.first(), Some(68 | 74)) || !dyn_at(w, 17, n, d, h, a, *idx) { return Err("dynamic-constant") }
 			}
 			(RI::Ref(op, kind, c, n, d), D::Cp(op2, idx)) if op == op2 => { if !ref_at(cls, *kind, c, n, d, *idx) { return Err("reference-constant") } }
 			(RI::InvokeInterface(c, n, d), D::InvokeInterface(idx, count)) => {
@@ -806,6 +881,41 @@ fn check_denotes(r: &Req, w: &Written) -> Result<(), &'static str> {
 	Ok(())
 }
 
+fn const_at(c: &PClass, k: &Const, idx: u16) -> bool {
+	match (k, c.pool.get(idx as usize)) {
+		(Const::Int(v), Some(PItem::Int(x))) => v == x,
+		(Const::Float(v), Some(PItem::Float(x))) => v == x,
+		(Const::Long(v), Some(PItem::Long(x))) => v == x,
+		(Const::Double(v), Some(PItem::Double(x))) => v == x,
+		(Const::Str(s), Some(PItem::Str(u))) => c.utf8(*u) == Some(&ascii(s)[..]),
+		(Const::Cls(s), Some(PItem::Class(u))) => c.utf8(*u) == Some(&ascii(s)[..]),
+		(Const::MType(s), Some(PItem::MethodType(u))) => c.utf8(*u) == Some(&ascii(s)[..]),
+		(Const::MHandle(h), Some(PItem::Handle(..))) => handle_at(c, h, idx),
+		_ => false,
+	}
+}
+
+fn handle_at(c: &PClass, h: &RHandle, idx: u16) -> bool {
+	matches!(c.pool.get(idx as usize), Some(PItem::Handle(k, r)) if *k == h.kind && ref_at(c, h.ref_kind, &h.cls, &h.name, &h.desc, *r))
+}
+
+/// pool entry `idx` is a Dynamic (17) / InvokeDynamic (18) entry naming `n:d` and a row of the BootstrapMethods table with
+/// the requested handle and arguments
+fn dyn_at(w: &Written, tag: u8, n: &[u32], d: &[u32], h: &RHandle, args: &[Const], idx: u16) -> bool {
+	let c = &w.class;
+	match c.pool.get(idx as usize) {
+		Some(PItem::Dyn(t, b, nt)) if *t == tag => {
+			let nt_ok = matches!(c.pool.get(*nt as usize), Some(PItem::NameAndType(a, e)) if c.utf8(*a) == Some(&ascii(n)[..]) && c.utf8(*e) == Some(&ascii(d)[..]));
+			let row_ok = match w.bsms.get(*b as usize) {
+				Some((hi, ais)) => handle_at(c, h, *hi) && ais.len() == args.len() && ais.iter().zip(args).all(|(i, k)| const_at(c, k, *i)),
+				None => false,
+			};
+			nt_ok && row_ok
+		}
+		_ => false,
+	}
+}
+
 fn class_at(c: &PClass, name: &[u32], idx: u16) -> bool {
 	matches!(c.pool.get(idx as usize), Some(PItem::Class(u)) if c.utf8(*u) == Some(&ascii(name)[..]))
 }
@@ -851,11 +961,22 @@ fn check_wellformed(w: &Written) -> Result<(), &'static str> {
 			PItem::Class(n) | PItem::Str(n) | PItem::MethodType(n) | PItem::Module(n) | PItem::Package(n) => c.utf8(*n).is_some(),
 			PItem::NameAndType(a, b) => c.utf8(*a).is_some() && c.utf8(*b).is_some(),
 			PItem::Ref(_, a, b) => c.is_class(*a) && matches!(c.pool.get(*b as usize), Some(PItem::NameAndType(..))),
+			PItem::Handle(k, r) => match c.pool.get(*r as usize) {
+				Some(PItem::Ref(9, ..)) => (1..=4).contains(k),
+				Some(PItem::Ref(10, ..)) => (5..=8).contains(k),
+				Some(PItem::Ref(11, ..)) => [6, 7, 9].contains(k),
+				_ => false,
+			},
+			PItem::Dyn(_, b, nt) => (*b as usize) < w.bsms.len() && matches!(c.pool.get(*nt as usize), Some(PItem::NameAndType(..))),
 			_ => true,
 		};
 		if !ok { return Err("pool-reference") }
 	}
 	if c.pool.len() != c.pool_count as usize { return Err("pool-count") }
+	let loadable = |i: u16| matches!(c.pool.get(i as usize), Some(PItem::Int(_) | PItem::Float(_) | PItem::Long(_) | PItem::Double(_) | PItem::Str(_) | PItem::Class(_) | PItem::Handle(..) | PItem::MethodType(_) | PItem::Dyn(17, ..)));
+	for (h, args) in &w.bsms {
+		if !matches!(c.pool.get(*h as usize), Some(PItem::Handle(..))) || args.iter().any(|a| !loadable(*a)) { return Err("bootstrap-row") }
+	}
 	if !c.is_class(c.this_class) || !(c.super_class == 0 || c.is_class(c.super_class)) { return Err("this-or-super") }
 	if c.interfaces.iter().any(|&i| !c.is_class(i)) { return Err("interface") }
 	for a in &c.attrs { if c.utf8(a.name).is_none() { return Err("attribute-name") } }
@@ -890,6 +1011,7 @@ fn check_wellformed(w: &Written) -> Result<(), &'static str> {
 			}
 			D::InvokeInterface(i, count) => if !matches!(c.pool.get(*i as usize), Some(PItem::Ref(11, ..))) || *count == 0 { return Err("invokeinterface") },
 			D::MultiANewArray(i, d) => if !c.is_class(*i) || *d == 0 { return Err("multianewarray") },
+			D::InvokeDynamic(i) => if !matches!(c.pool.get(*i as usize), Some(PItem::Dyn(18, ..))) { return Err("invokedynamic") },
 			D::NewArray(t) => if !(4..=11).contains(t) { return Err("newarray") },
 			D::If(_, a) | D::Goto(a, _) | D::Jsr(a, _) => if !insn_at(*a) { return Err("branch-target") },
 			D::Ts(a, _, _, os) => if !insn_at(*a) || os.iter().any(|o| !insn_at(*o)) { return Err("branch-target") },
@@ -1089,6 +1211,34 @@ fn rand_label(r: &mut Rng, n: usize, end_ok: bool, m: Mode, out: &mut Out) -> us
 	r.below(n.max(1))
 }
 
+fn rand_handle(r: &mut Rng) -> Sexp {
+	let (kind, iface) = *r.pick(&[(1usize, false), (2, false), (3, false), (4, false), (5, false), (6, false), (6, true), (7, false), (7, true), (8, false), (9, true)]);
+	let field = kind <= 4;
+	sx("h", vec![Sexp::nat(kind), Sexp::str(*r.pick(&["B", "C"])), Sexp::str(if kind == 8 { "<init>" } else { *r.pick(&["b", "f"]) }),
+		Sexp::str(if field { *r.pick(&["I", "Lx;"]) } else { *r.pick(&["()V", "(I)Lx;"]) }), Sexp::bool(iface)])
+}
+
+/// a non-dynamic loadable (bootstrap argument)
+fn rand_arg(r: &mut Rng) -> Sexp {
+	match r.below(8) {
+		0 => sx("ldc-mt", vec![Sexp::str(*r.pick(&["()V", "(I)V"]))]),
+		1 => sx("ldc-mh", vec![rand_handle(r)]),
+		_ => rand_const(r),
+	}
+}
+
+/// `invokedynamic`, `ldc` of a dynamic constant / method type / method handle; few distinct values so that bootstrap
+/// methods and their arguments repeat (de-duplication)
+fn rand_dynamic(r: &mut Rng) -> Sexp {
+	let args = |r: &mut Rng| Sexp::list((0..*r.pick(&[0usize, 0, 1, 2])).map(|_| rand_arg(r)).collect());
+	match r.below(6) {
+		0 | 1 | 2 => { let h = rand_handle(r); let a = args(r); sx("indy", vec![Sexp::str(*r.pick(&["run", "get"])), Sexp::str(*r.pick(&["()V", "(I)Lx;"])), h, a]) }
+		3 => { let h = rand_handle(r); let a = args(r); sx("ldc-dyn", vec![Sexp::str("k"), Sexp::str(*r.pick(&["I", "J", "D", "Lx;"])), h, a]) }
+		4 => sx("ldc-mt", vec![Sexp::str(*r.pick(&["()V", "(I)V"]))]),
+		_ => sx("ldc-mh", vec![rand_handle(r)]),
+	}
+}
+
 /// field access, invocations, `new` & co: instructions with a constant-pool reference and no label
 fn rand_member(r: &mut Rng, m: Mode, out: &mut Out) -> Sexp {
 	let cls = *r.pick(&["C", "java/lang/Object", "p/Q", "[I"]);
@@ -1107,12 +1257,13 @@ fn rand_member(r: &mut Rng, m: Mode, out: &mut Out) -> Sexp {
 
 fn rand_insn(r: &mut Rng, n: usize, m: Mode, out: &mut Out) -> Sexp {
 	let c = r.below(100);
-	let kind = match c { 0..=27 => "simple", 28..=37 => "member", 38..=45 => "push", 46..=55 => "ldc", 56..=65 => "local", 66..=69 => "iinc", 70..=71 => "ret",
+	let kind = match c { 0..=23 => "simple", 24..=27 => "dynamic", 28..=37 => "member", 38..=45 => "push", 46..=55 => "ldc", 56..=65 => "local", 66..=69 => "iinc", 70..=71 => "ret",
 		72..=83 => "if", 84..=89 => "goto", 90..=91 => "jsr", 92..=95 => "tableswitch", _ => "lookupswitch" };
 	out.stats.hit(&format!("insn:{kind}"));
 	match kind {
 		"simple" => sx("s", vec![Sexp::nat(*r.pick(&SIMPLE))]),
 		"member" => rand_member(r, m, out),
+		"dynamic" => rand_dynamic(r),
 		"push" => if r.chance(1, 2) { sx("bi", vec![Sexp::int(*r.pick(&[-128i64, -1, 0, 5, 127]))]) } else { sx("si", vec![Sexp::int(*r.pick(&[-32768i64, -129, 0, 128, 32767]))]) },
 		"ldc" => rand_const(r),
 		"local" => sx(if r.chance(1, 2) { "ld" } else { "st" }, vec![Sexp::nat(r.below(5)), Sexp::nat(*r.pick(&IDX))]),
@@ -1475,6 +1626,36 @@ fn gen(r: &mut Rng, tier: Tier, out: &mut Out) {
 		}
 		b.push(ret_insn());
 		out.stats.hit("stream:members-all");
+		emit_code(out, &b, true);
+	}
+
+	// ---- 7c. bootstrap methods: every handle kind, equal and different (handle, arguments) pairs, dynamic constants
+	// of one and two slots, constants shared between ldc and bootstrap arguments
+	{
+		let hs: Vec<Sexp> = [(1usize, false), (2, false), (3, false), (4, false), (5, false), (6, false), (6, true), (7, false), (7, true), (8, false), (9, true)].iter().map(|&(k, i)|
+			sx("h", vec![Sexp::nat(k), Sexp::str("B"), Sexp::str("b"), Sexp::str(if k <= 4 { "I" } else { "()V" }), Sexp::bool(i)])).collect();
+		let mut b = B::new();
+		for round in 0..2 {
+			for h in &hs {
+				b.push(sx("indy", vec![Sexp::str("r"), Sexp::str("()V"), h.clone(), Sexp::list(vec![sx("ldc-int", vec![Sexp::int(7)])])]));
+				if round == 1 { b.push(sx("indy", vec![Sexp::str("r"), Sexp::str("()V"), h.clone(), Sexp::list(vec![sx("ldc-int", vec![Sexp::int(8)])])])); }
+				b.push(sx("ldc-mh", vec![h.clone()]));
+			}
+			b.push(sx("ldc-int", vec![Sexp::int(7)]));
+			b.push(sx("ldc-dyn", vec![Sexp::str("k"), Sexp::str("J"), hs[5].clone(), Sexp::list(vec![])]));
+			b.push(sx("ldc-dyn", vec![Sexp::str("k"), Sexp::str("D"), hs[5].clone(), Sexp::list(vec![sx("ldc-long", vec![Sexp::int(1)]), sx("ldc-double", vec![Sexp::Atom("0".into())])])]));
+			b.push(sx("ldc-dyn", vec![Sexp::str("k"), Sexp::str("I"), hs[5].clone(), Sexp::list(vec![sx("ldc-mt", vec![Sexp::str("()V")]), sx("ldc-mh", vec![hs[0].clone()]), sx("ldc-cls", vec![Sexp::str("B")]), sx("ldc-str", vec![Sexp::str("B")])])]));
+		}
+		b.push(ret_insn());
+		out.stats.hit("stream:bootstrap-all");
+		emit_code(out, &b, true);
+	}
+	for _ in 0..(if thorough { 3000 } else { 150 }) {
+		let n = r.range(1, 10);
+		let mut b = B::new();
+		for _ in 0..n { let i = rand_dynamic(r); b.push(i); }
+		b.push(ret_insn());
+		out.stats.hit("stream:bootstrap-random");
 		emit_code(out, &b, true);
 	}
 
